@@ -14,12 +14,16 @@ import (
 	"strings"
 	"time"
 
+	"github.com/bluenviron/gortsplib/v5/pkg/description"
+	rtspformat "github.com/bluenviron/gortsplib/v5/pkg/format"
 	"github.com/bluenviron/mediacommon/v2/pkg/formats/fmp4"
 	mcodecs "github.com/bluenviron/mediacommon/v2/pkg/formats/mp4/codecs"
 
 	"github.com/bluenviron/mediamtx/internal/conf"
 	"github.com/bluenviron/mediamtx/internal/logger"
 	"github.com/bluenviron/mediamtx/internal/recordstore"
+	"github.com/bluenviron/mediamtx/internal/stream"
+	"github.com/bluenviron/mediamtx/internal/unit"
 )
 
 type verifNilLogger struct{}
@@ -53,10 +57,18 @@ type VerifRec struct {
 	Tracks          []VerifTrack
 	OnCreate        func(path string)
 	OnComplete      func(path string, d time.Duration)
+	// Gated: go through the REAL per-codec callbacks that formatFMP4.initialize registers (video = AV1 at 90 kHz,
+	// audio = Opus at 48 kHz), i.e. including the first-random-access gate, instead of calling track.write directly.
+	Gated bool
 
 	f      *formatFMP4
 	closed bool
+	strm   *stream.Stream
+	cbs    []stream.OnDataFunc
 }
+
+// VerifAV1SeqHeader is the sequence header OBU put in front of every key frame in gated mode.
+var VerifAV1SeqHeader = []byte{8, 0, 0, 0, 66, 167, 191, 228, 96, 13, 0, 64}
 
 var verifH264SPS = []byte{
 	0x67, 0x42, 0xc0, 0x28, 0xd9, 0x00, 0x78, 0x02,
@@ -97,6 +109,33 @@ func (v *VerifRec) Start() {
 	ri.pathFormat2 = recordstore.PathAddExtension(
 		strings.ReplaceAll(ri.pathFormat, "%path", ri.pathName), ri.format)
 	v.f = &formatFMP4{ri: ri}
+	if v.Gated {
+		desc := &description.Session{}
+		for _, t := range v.Tracks {
+			if t.Video {
+				desc.Medias = append(desc.Medias, &description.Media{
+					Type: description.MediaTypeVideo, Formats: []rtspformat.Format{&rtspformat.AV1{PayloadTyp: 96}},
+				})
+			} else {
+				desc.Medias = append(desc.Medias, &description.Media{
+					Type: description.MediaTypeAudio, Formats: []rtspformat.Format{&rtspformat.Opus{PayloadTyp: 96, ChannelCount: 2}},
+				})
+			}
+		}
+		v.strm = &stream.Stream{OrigDesc: desc, WriteQueueSize: 512, RTPMaxPayloadSize: 1450, Parent: verifNilLogger{}}
+		if err := v.strm.Initialize(); err != nil {
+			panic(err)
+		}
+		ri.stream = v.strm
+		ri.reader = &stream.Reader{Parent: ri}
+		if !v.f.initialize() { // the REAL initialize: registers the per-codec callbacks
+			panic("no tracks")
+		}
+		for _, m := range desc.Medias {
+			v.cbs = append(v.cbs, stream.VerifOnData(ri.reader, m, m.Formats[0]))
+		}
+		return
+	}
 	for i, t := range v.Tracks {
 		var codec mcodecs.Codec
 		if t.Video {
@@ -114,6 +153,24 @@ func (v *VerifRec) Start() {
 func (v *VerifRec) Write(s VerifSample) error {
 	if v.closed {
 		return nil
+	}
+	if v.Gated {
+		u := &unit.Unit{PTS: s.DTS, NTP: s.NTP}
+		if v.Tracks[s.Track].Video {
+			frame := append([]byte{0x30}, s.Payload...)
+			if s.NonSync {
+				u.Payload = unit.PayloadAV1{frame}
+			} else {
+				u.Payload = unit.PayloadAV1{VerifAV1SeqHeader, frame}
+			}
+		} else {
+			u.Payload = unit.PayloadOpus{s.Payload}
+		}
+		err := v.cbs[s.Track](u)
+		if err != nil {
+			v.Close()
+		}
+		return err
 	}
 	err := v.f.tracks[s.Track].write(&formatFMP4Sample{
 		Sample: &fmp4.Sample{
@@ -137,6 +194,9 @@ func (v *VerifRec) Close() {
 	}
 	v.closed = true
 	v.f.close()
+	if v.strm != nil {
+		v.strm.Close()
+	}
 }
 
 // Abandon drops the instance WITHOUT closing the segment: file handles are closed, nothing else is
@@ -148,6 +208,9 @@ func (v *VerifRec) Abandon() {
 	v.closed = true
 	if v.f.currentSegment != nil && v.f.currentSegment.fi != nil {
 		v.f.currentSegment.fi.Close()
+	}
+	if v.strm != nil {
+		v.strm.Close()
 	}
 }
 
